@@ -23,7 +23,7 @@ from rv.synth import Synth
 
 PROPERTY = "C17"
 LEVEL = "exploration"
-BUDGET_S = {"quick": 75, "thorough": 1200}
+BUDGET_S = {"quick": 75, "thorough": 3600}
 RULE = (
     "one evaluation = one history with 2-4 actors: each obtains an object (new module of any of the 43 types / project / "
     "pattern / synth, clone of another actor's object, load of another actor's saved bytes or of a shared fixture), then "
